@@ -157,31 +157,52 @@ pub fn fmt_v(v: &V, names: &HashMap<u32, (usize, String)>) -> String {
 /// Canonical dump: sorted lines `F a1 .. an -> out [sub]` with ids replaced by least-term names.
 /// `$`-prefixed (global let) tables are skipped unless asked for.
 pub fn canon_dump(d: &RawDump) -> Vec<String> {
-    let mut names = class_names(d, false);
-    // unnamed ids: stable fallback by structural position
-    let mut lines = vec![];
+    let names = class_names(d, false);
+    let render = |names: &HashMap<u32, (usize, String)>| -> Vec<String> {
+        let mut lines = vec![];
+        for t in &d.tables {
+            if t.name.starts_with('$') { continue; }
+            for r in &t.rows {
+                let mut s = t.name.clone();
+                for a in &r.args { s.push(' '); s.push_str(&fmt_v(a, names)); }
+                s.push_str(" -> "); s.push_str(&fmt_v(&r.out, names));
+                if r.sub { s.push_str(" [sub]"); }
+                lines.push(s);
+            }
+        }
+        lines.sort();
+        lines
+    };
+    // ids without any term (e.g. after a delete): they can only be named up to a bijection.  Colour them by their
+    // occurrences (table, column, the row with named ids spelled out and unnamed ones as `?`), then choose, among the
+    // permutations inside each group of equally coloured ids, the assignment giving the smallest dump — a true
+    // canonical form as long as the product of the group factorials stays small (else: id order inside the group).
     let mut unnamed: BTreeSet<u32> = BTreeSet::new();
     for t in &d.tables { for r in &t.rows { for v in r.args.iter().chain(std::iter::once(&r.out)) { if let V::Id(i) = v { if !names.contains_key(i) { unnamed.insert(*i); } } } } }
-    if !unnamed.is_empty() {
-        // colour by the multiset of (table, column) occurrences; ties keep id order (documented heuristic)
-        let mut sig: BTreeMap<u32, Vec<String>> = BTreeMap::new();
-        for t in &d.tables { for r in &t.rows { for (k, v) in r.args.iter().chain(std::iter::once(&r.out)).enumerate() { if let V::Id(i) = v { if unnamed.contains(i) { sig.entry(*i).or_default().push(format!("{}@{}", t.name, k)); } } } } }
-        let mut order: Vec<(Vec<String>, u32)> = sig.into_iter().map(|(i, mut s)| { s.sort(); (s, i) }).collect();
-        order.sort();
-        for (n, (_, i)) in order.into_iter().enumerate() { names.insert(i, (0, format!("?{n}"))); }
+    if unnamed.is_empty() { return render(&names); }
+    let mut sig: BTreeMap<u32, Vec<String>> = BTreeMap::new();
+    for t in &d.tables { for r in &t.rows {
+        let spelled: Vec<String> = r.args.iter().chain(std::iter::once(&r.out)).map(|v| match v { V::Id(i) if unnamed.contains(i) => "?".to_string(), o => fmt_v(o, &names) }).collect();
+        for (k, v) in r.args.iter().chain(std::iter::once(&r.out)).enumerate() { if let V::Id(i) = v { if unnamed.contains(i) { sig.entry(*i).or_default().push(format!("{}@{}|{}|{}", t.name, k, spelled.join(" "), r.sub as u8)); } } }
+    } }
+    let mut order: Vec<(Vec<String>, u32)> = sig.into_iter().map(|(i, mut s)| { s.sort(); (s, i) }).collect();
+    order.sort();
+    let mut groups: Vec<Vec<u32>> = vec![];
+    let mut last: Option<&Vec<String>> = None;
+    for (sg, i) in &order { if last == Some(sg) { groups.last_mut().unwrap().push(*i); } else { groups.push(vec![*i]); } last = Some(sg); }
+    fn perms(v: &[u32]) -> Vec<Vec<u32>> { if v.len() <= 1 { return vec![v.to_vec()]; } let mut out = vec![]; for i in 0..v.len() { let mut rest = v.to_vec(); let x = rest.remove(i); for mut p in perms(&rest) { p.insert(0, x); out.push(p); } } out }
+    let combos: usize = groups.iter().map(|g| (1..=g.len()).product::<usize>()).try_fold(1usize, |a, b| a.checked_mul(b)).unwrap_or(usize::MAX);
+    let assign = |choice: &[Vec<u32>]| -> HashMap<u32, (usize, String)> { let mut nm = names.clone(); let mut n = 0; for g in choice { for i in g { nm.insert(*i, (0, format!("?{n}"))); n += 1; } } nm };
+    if combos > 5040 { return render(&assign(&groups)); }
+    let per_group: Vec<Vec<Vec<u32>>> = groups.iter().map(|g| perms(g)).collect();
+    let mut best: Option<Vec<String>> = None;
+    let mut idx = vec![0usize; per_group.len()];
+    loop {
+        let choice: Vec<Vec<u32>> = idx.iter().enumerate().map(|(g, k)| per_group[g][*k].clone()).collect();
+        let lines = render(&assign(&choice));
+        if best.as_ref().map_or(true, |b| lines < *b) { best = Some(lines); }
+        let mut g = 0; loop { if g == idx.len() { return best.unwrap(); } idx[g] += 1; if idx[g] < per_group[g].len() { break; } idx[g] = 0; g += 1; }
     }
-    for t in &d.tables {
-        if t.name.starts_with('$') { continue; }
-        for r in &t.rows {
-            let mut s = t.name.clone();
-            for a in &r.args { s.push(' '); s.push_str(&fmt_v(a, &names)); }
-            s.push_str(" -> "); s.push_str(&fmt_v(&r.out, &names));
-            if r.sub { s.push_str(" [sub]"); }
-            lines.push(s);
-        }
-    }
-    lines.sort();
-    lines
 }
 
 pub fn canon(eg: &EGraph) -> Vec<String> { canon_dump(&raw_dump(eg)) }
